@@ -1,4 +1,4 @@
-\* repaired model: Retained 20 > chain length (nothing may ever be pruned; the unsigned guards), L1 heads up to 30, 8 operations; exhaustive: 3 780 distinct states (127 362 generated), 2 s
+\* repaired model: Retained 20 > chain length (nothing may ever be pruned; the unsigned guards), L1 heads up to 30, 8 operations; exhaustive: 6 594 distinct states (218 424 generated), 4 s
 CONSTANTS
   MaxH = 13
   InitH = 11
